@@ -162,6 +162,8 @@ def run_unit(unit_path, repo="/repo", tier="quick", seed=0, keep=False, extra_ar
         res["fired"] = [dict(rule=r, file=f, line=l, note=n) for r, f, l, n in gen.fired]
         res["functions"] = gen.functions
         res["items"] = gen.items
+        res["dropped_hints"] = gen.dropped_hints
+        hintless = {f for f, _ in gen.dropped_hints}
         # assumption scan
         allowed = gen.unit.allow
         for kind, ln, ctxname in scan_assumptions(text):
@@ -313,6 +315,10 @@ def run_unit(unit_path, repo="/repo", tier="quick", seed=0, keep=False, extra_ar
             seen_ids[oid] = n + 1
             if n:
                 oid += f"#{n}"
+            if fn_label in hintless:
+                res["undecided"].append(f"proof hint of {fn_label} lost its anchor ({[m for f_, m in gen.dropped_hints if f_ == fn_label][0][:200]}); "
+                                        f"without it the verifier cannot decide: {msg} at {where}")
+                continue
             tags = []
             if clause_tag:
                 tags = clause_tag.split(",")
